@@ -32,6 +32,12 @@ type c01Runner struct {
 	cases  *lineWriter
 	impl   *lineWriter
 	stats  map[string]int
+	// the case spelling of keywords (c01_kwcase.go): salt of the share, off for the phases that ask the SAME text twice,
+	// a style forced by the keyword-case sweep
+	kwSalt   int64
+	kwOff    bool
+	kwForced bool
+	kwForce  *c01KwCaseStyle
 }
 
 func c01Ids(ids []string) string {
@@ -98,8 +104,19 @@ func (r *c01Runner) query(store int, text string) (res string) {
 
 func (r *c01Runner) runFilter(store int, f *c01Filter) {
 	text := f.text()
+	term := f.term()
+	// a share of the filters spells its keywords and word operators in another case (c01_kwcase.go): same term, same
+	// expected answer; the style is the last token of the line (the shrinker prints sub-filters in the same style)
+	if ks := r.kwStyleFor(term); ks != nil {
+		c01KwCur = ks
+		if t2 := f.text(); t2 != text {
+			text, term = t2, term+c01KwToken(ks)
+			r.stats["keyword-case:Q:"+string(ks.kind)]++
+		}
+		c01KwCur = nil
+	}
 	watchdogBeat(fmt.Sprintf("%d %s", store, text))
-	r.cases.line("Q %d %s %s", store, hxs(text), f.term())
+	r.cases.line("Q %d %s %s", store, hxs(text), term)
 	res := r.query(store, text)
 	r.impl.line("%s", res)
 	switch {
@@ -117,7 +134,18 @@ func (r *c01Runner) runFilter(store int, f *c01Filter) {
 func runC01(o *opts) error {
 	startWatchdog(o.out, 20*time.Second)
 	if t := o.get("render", ""); t != "" {
-		fmt.Println(hxs(c01ParseTerm(strings.Split(t, ",")).text()))
+		// --kwcase <style>: the spelling of the keywords; --sortclause <hex>: the complete query text of a T line
+		c01KwCur = c01KwParseStyle(o.get("kwcase", ""))
+		f := c01ParseTerm(strings.Split(t, ","))
+		if sc := o.get("sortclause", ""); sc != "" && f.k == "q" {
+			clause := ""
+			if sc != "-" {
+				clause = string(unhx(sc))
+			}
+			fmt.Println(hxs(c01QueryText(f, clause)))
+			return nil
+		}
+		fmt.Println(hxs(f.text()))
 		return nil
 	}
 	dir, err := os.MkdirTemp("", "c01")
@@ -131,7 +159,7 @@ func runC01(o *opts) error {
 	}
 	defer db.Close()
 	ast.EnableQueryDebug.Store(false)
-	r := &c01Runner{db: db, stats: map[string]int{}}
+	r := &c01Runner{db: db, stats: map[string]int{}, kwSalt: o.seed}
 	r.useVariant("base")
 	r.cases = newLineWriter(o.out, "cases.txt")
 	r.impl = newLineWriter(o.out, "impl.txt")
@@ -166,6 +194,9 @@ func runC01(o *opts) error {
 		nfmt = 6000
 	}
 	r.stats["float-format-lines"] = c01FmtLines(r, g, nfmt)
+
+	// every keyword and word operator x every kind of case spelling, bounded-exhaustive (c01_kwcase.go)
+	r.stats["keyword-case-sweep-lines"] = c01SweepKwCase(r, o.thorough(), dotted)
 
 	// the schema variants (aliased storage, child stores) and every scan strategy, bounded-exhaustive
 	c01VariantSweeps(r, dotted)
@@ -224,6 +255,7 @@ func runC01(o *opts) error {
 	// long sort clauses over datasets with ties, queries without a predicate (c01_ties.go); sequences of queries in
 	// which an earlier caller refines the query object it parsed (c01_history.go).  These phases come last and draw
 	// from their own generator: the streams above are unchanged, and an M line precedes only lines of these phases
+	r.kwOff = true // the phases below ask the same TEXT again after an earlier caller: their lines keep the canonical spelling
 	c01TieSweeps(r)
 	g2 := &c01Gen{r: newRng(o.seed ^ 0x5e55104), stats: r.stats}
 	nties, perTies := 24, 8
